@@ -181,8 +181,11 @@ def ext_paths(prog):
     return out
 
 
-def gen_scenario(rng: random.Random, prog, *, crash=0.5, faults=0.0, paging=0.5, ext_fail=0.4, pct=0.3):
+def gen_scenario(rng: random.Random, prog, *, crash=0.5, faults=0.0, paging=0.5, ext_fail=0.4, pct=0.3, small_batch=0.3):
     sc = {"seed": rng.randrange(1 << 30)}
+    if rng.random() < small_batch:
+        # batch limits around the size of one or two updates: every split / overflow position of the pipeline is reached
+        sc["batcher"] = {"bytes": rng.choice([120, 200, 260, 320, 400, 520, 700, 1000]), "ops": rng.choice([1, 2, 3, 250, 250])}
     if rng.random() < crash:
         sc["crash_prob"] = rng.choice([0.3, 0.6, 0.9])
         sc["crash_max_step"] = rng.choice([60, 150, 300])
